@@ -266,4 +266,101 @@ theorem constTable_lookup {rows : List ConstRow} (hnd : (rows.map ConstRow.name)
     apply List.mem_filterMap.2
     exact ⟨r, hr, by simp [hv]⟩
 
+/-! ## the conversions of `mk_constant`, universally -/
+
+theorem digitVal_of_isDigit {c : Char} (h : c.isDigit = true) : digitVal c = some (c.toNat - '0'.toNat) := by
+  unfold digitVal
+  simp only [Char.isDigit, Bool.and_eq_true, decide_eq_true_eq] at h
+  have h1 : '0' ≤ c := by
+    show (48 : UInt32) ≤ c.val
+    exact h.1
+  have h2 : c ≤ '9' := by
+    show c.val ≤ (57 : UInt32)
+    exact h.2
+  simp [h1, h2]
+
+theorem parseNatChars_digits : ∀ (cs : List Char) (acc : Nat), (∀ c ∈ cs, c.isDigit = true) →
+    parseNatChars cs acc = some (Nat.ofDigitChars 10 cs acc)
+  | [], acc, _ => by simp [parseNatChars]
+  | c :: rest, acc, h => by
+    simp only [parseNatChars, digitVal_of_isDigit (h c List.mem_cons_self), Nat.ofDigitChars_cons]
+    rw [Nat.mul_comm]
+    exact parseNatChars_digits rest _ (fun x hx => h x (List.mem_cons_of_mem _ hx))
+
+theorem parseNatChars_repr (n : Nat) : parseNatChars (Nat.toDigits 10 n) 0 = some n := by
+  rw [parseNatChars_digits _ _ (fun c hc => Nat.isDigit_of_mem_toDigits (by decide) (by decide) hc),
+    Nat.ofDigitChars_ten_toDigits]
+
+theorem parseInt_repr_nat (n : Nat) : parseInt (Nat.repr n) = some (n : Int) := by
+  unfold parseInt
+  rw [Nat.toList_repr]
+  have hne : Nat.toDigits 10 n ≠ [] := Nat.toDigits_ne_nil
+  cases hcs : Nat.toDigits 10 n with
+  | nil => exact absurd hcs hne
+  | cons d rest =>
+    have hd : d.isDigit = true := Nat.isDigit_of_mem_toDigits (b := 10) (n := n) (by decide) (by decide) (by rw [hcs]; exact List.mem_cons_self)
+    have hdm : d ≠ '-' := by intro h; subst h; revert hd; decide
+    have := parseNatChars_repr n
+    rw [hcs] at this
+    split
+    · rename_i heq; cases heq
+    · rename_i heq; cases heq; exact absurd rfl hdm
+    · simp [this]
+
+theorem parseInt_repr_neg (n : Nat) : parseInt ("-" ++ Nat.repr (n + 1)) = some (-((n + 1 : Nat) : Int)) := by
+  unfold parseInt
+  have : ("-" ++ Nat.repr (n + 1)).toList = '-' :: Nat.toDigits 10 (n + 1) := by
+    rw [String.toList_append, Nat.toList_repr]; rfl
+  rw [this]
+  simp only
+  rw [if_neg Nat.toDigits_ne_nil, parseNatChars_repr]
+  rfl
+
+/-- `mk_constant`, for every text: a string constant is its text, a boolean is whether the text spelled in lower case
+    is `true`, an integer is the number its decimal numeral denotes (for every integer), any other type name is not
+    supported -/
+theorem constVal_universal :
+    (∀ t, constVal "string" t = some (.str t)) ∧
+    (∀ t, constVal "boolean" t = some (.bool (t.map Char.toLower == "true"))) ∧
+    (∀ n : Nat, constVal "integer" (Nat.repr n) = some (.int n)) ∧
+    (∀ n : Nat, constVal "integer" ("-" ++ Nat.repr (n + 1)) = some (.int (-((n + 1 : Nat) : Int)))) ∧
+    (∀ ty t, ty ≠ "boolean" → ty ≠ "integer" → ty ≠ "string" → constVal ty t = none) := by
+  refine ⟨fun t => by simp [constVal], fun t => by simp [constVal], fun n => ?_, fun n => ?_, fun ty t h1 h2 h3 => by simp [constVal, h1, h2, h3]⟩
+  · simp [constVal, parseInt_repr_nat]
+  · simp [constVal, parseInt_repr_neg]
+
+/-! ## the tables reach the interpreter -/
+open M
+
+/-- reading the NAME of a constant (a name no local variable carries and that is not `self`): its modeled value
+    converted by its data type, whatever the order of the CNST rows the table was built from -/
+theorem const_read {C : Ctx} {rec : Oracle} {rows rows' : List ConstRow} (hC : C.consts = constTable rows')
+    (hp : rows.Perm rows') (hnd : (rows.map ConstRow.name).Nodup) {r : ConstRow} (hr : r ∈ rows) {v : Val}
+    (hv : constVal r.tyName r.text = some v) {c : Cfg} (hself : selfHit c.fr r.name = false)
+    (henv : envLookup c.fr.env r.name = none) :
+    evalStep C rec (.var r.name) c = some (.ok (v, c)) := by
+  have hl : C.consts.lookup r.name = some v := by
+    rw [hC, ← constTable_lookup_perm hp hnd]; exact constTable_lookup hnd hr hv
+  simp only [evalStep]
+  unfold lookupVar
+  rw [bind_ok (show getFr c = some (.ok (c.fr, c)) from rfl), hself]
+  simp only [Bool.false_eq_true, if_false, henv, hl]
+  rfl
+
+/-- a local variable of that name hides the constant -/
+theorem const_hidden {C : Ctx} {rec : Oracle} {x : String} {c : Cfg} {w : Val} (hself : selfHit c.fr x = false)
+    (henv : envLookup c.fr.env x = some w) : evalStep C rec (.var x) c = some (.ok (w, c)) := by
+  simp only [evalStep]; exact lookupVar_env hself henv
+
+/-- `E::name` where the context carries `mk_enum`'s order of the rows of `E`: the modeled position of the enumerator,
+    whatever the order of the S_ENUM rows -/
+theorem enum_read {C : Ctx} {rec : Oracle} {ns : String} {rows : List EnumRow} {L : List (Nat × String)}
+    (hC : C.enums.find? (fun d => d.name = ns) = some ⟨ns, enumOrder rows⟩)
+    (hnd : (0 :: L.map Prod.fst).Nodup) (hperm : rows.Perm (mkRows 0 L)) (hn : (L.map Prod.snd).Nodup)
+    (k : Nat) (hk : k < (L.map Prod.snd).length) (c : Cfg) :
+    evalStep C rec (.enumOrConst ns (L.map Prod.snd)[k]) c = some (.ok (.int k, c)) := by
+  have hpos : posOf (L.map Prod.snd)[k] (enumOrder rows) = some k := by
+    rw [enumOrder_perm L hnd rows hperm]; exact posOf_getElem _ hn k hk
+  simp only [evalStep, hC, hpos]; rfl
+
 end Pyx.Interp
